@@ -319,3 +319,31 @@ Lemma is_matchable_table gt_fp same unk :
   is_matchable P_ALLOW_UNKNOWN gt_fp same unk = (gt_fp || (same || unk)) /\
   is_matchable P_ALLOW_ANY gt_fp same unk = true.
 Proof. destruct gt_fp, same, unk; repeat split; reflexivity. Qed.
+
+(* ------------------------------------------------------------------------------------------ *)
+(* within a stage the pairs come out best first                                                 *)
+(* ------------------------------------------------------------------------------------------ *)
+Definition picked_before (mx : bool) (key : nat -> nat -> option Q) (p q : nat * nat) : Prop :=
+  forall s s', key (fst p) (snd p) = Some s -> key (fst q) (snd q) = Some s' -> as_good mx s s'.
+
+Lemma stage_scores_sorted mx key fuel : forall es gs ps es' gs',
+  stage fuel mx key es gs = (ps, es', gs') ->
+  Sorted.StronglySorted (picked_before mx key) ps.
+Proof.
+  induction fuel as [|f IH]; intros es gs ps es' gs'; cbn [stage].
+  - intros E. inversion E; subst. constructor.
+  - destruct (argbest mx key es gs) as [[e0 g0]|] eqn:A.
+    + destruct (stage f mx key (remove_first e0 es) (remove_first g0 gs)) as [[ps1 es1] gs1] eqn:S.
+      intros E. inversion E; subst. apply argbest_some in A. destruct A as (I & J & s0 & K0 & Best).
+      constructor; [eapply IH; exact S|].
+      apply Forall_forall. intros [e g] Hin s s' Ks Ks'. cbn [fst snd] in *.
+      rewrite K0 in Ks. inversion Ks; subst.
+      destruct (stage_keys _ _ _ _ _ _ _ _ S e g Hin) as (Ie & Ig & _).
+      exact (Best e g s' (remove_first_in _ _ _ Ie) (remove_first_in _ _ _ Ig) Ks').
+    + intros E. inversion E; subst. constructor.
+Qed.
+
+Lemma stages_scores_sorted mx cell ok n m s : stages_ok mx cell ok n m s ->
+  Sorted.StronglySorted (picked_before mx (masked cell ok)) (st_pairs1 s) /\
+  Sorted.StronglySorted (picked_before mx cell) (st_pairs2 s).
+Proof. intros [R1 R2]. split; eapply stage_scores_sorted; eauto. Qed.
